@@ -2,6 +2,7 @@ package main
 
 import (
 	"fmt"
+	"sort"
 	"go/constant"
 	"go/token"
 	"go/types"
@@ -292,6 +293,9 @@ func (fr *FuncRun) pushEdge(f *Frame, incoming map[*ssa.BasicBlock][]edgeIn, fro
 	if isBackEdge(from, to) {
 		// back edge: invariants must be preserved
 		fr.checkInvariants(f, to, ns, "inv-preserved")
+		if fr.scout > 0 && fr.scoutingHead == to {
+			fr.backStates = append(fr.backStates, ns)
+		}
 		return
 	}
 	if within != nil && !within[to] {
@@ -338,47 +342,94 @@ func (fr *FuncRun) loopOrdinal(f *Frame, head *ssa.BasicBlock) int {
 func (fr *FuncRun) enterLoop(f *Frame, head *ssa.BasicBlock, body map[*ssa.BasicBlock]bool, cur *State, order []*ssa.BasicBlock, bodies map[*ssa.BasicBlock]map[*ssa.BasicBlock]bool) {
 	// 1. invariants hold on entry
 	fr.checkInvariants(f, head, cur, "inv-entry")
-	// 2. scout the body for its write set
-	ws := newWriteSet()
-	fr.wsStack = append(fr.wsStack, ws)
-	fr.scout++
-	savedHead := fr.scoutingHead
-	fr.scoutingHead = head
-	savedLines := len(fr.lines)
-	savedRegs := f.regs
-	f.regs = map[ssa.Value]Val{}
-	for k, v := range savedRegs {
-		f.regs[k] = v
+	// 2. scout the body for its write set; iterate the slice-freshness flags to a fixpoint
+	var ws *WriteSet
+	for iter := 0; iter < 5; iter++ {
+		ws = newWriteSet()
+		fr.wsStack = append(fr.wsStack, ws)
+		fr.scout++
+		savedHead, savedBack := fr.scoutingHead, fr.backStates
+		fr.scoutingHead, fr.backStates = head, nil
+		savedRegs := f.regs
+		f.regs = map[ssa.Value]Val{}
+		for k, v := range savedRegs {
+			f.regs[k] = v
+		}
+		savedFreshW, savedOldW := fr.freshHeapWrites, fr.oldHeapWrites
+		fr.freshHeapWrites, fr.oldHeapWrites = map[string]bool{}, map[string]bool{}
+		sc := cur.clone()
+		fr.runRegion(f, order, body, head, sc, bodies)
+		scFresh, scOld := fr.freshHeapWrites, fr.oldHeapWrites
+		fr.freshHeapWrites, fr.oldHeapWrites = savedFreshW, savedOldW
+		_ = scFresh
+		_ = scOld
+		back := fr.backStates
+		f.regs = savedRegs
+		fr.scoutingHead, fr.backStates = savedHead, savedBack
+		fr.scout--
+		fr.wsStack = fr.wsStack[:len(fr.wsStack)-1]
+		changed := false
+		for c := range ws.cells {
+			v, ok := cur.cells[c]
+			if !ok || !v.FreshArr {
+				continue
+			}
+			for _, bs := range back {
+				if bv, ok := bs.cells[c]; ok && !bv.FreshArr {
+					v.FreshArr = false
+					cur.cells[c] = v
+					changed = true
+					break
+				}
+			}
+		}
+		if !changed {
+			break
+		}
 	}
-	sc := cur.clone()
-	fr.runRegion(f, order, body, head, sc, bodies)
-	f.regs = savedRegs
-	_ = savedLines
-	fr.scoutingHead = savedHead
-	fr.scout--
-	fr.wsStack = fr.wsStack[:len(fr.wsStack)-1]
 	// propagate to outer write sets
 	for h := range ws.heaps {
+		saved := fr.curWriteFresh
+		fr.curWriteFresh = !ws.oldHeaps[h]
 		fr.noteHeapWrite(h)
+		fr.curWriteFresh = saved
 	}
 	for c := range ws.cells {
 		fr.noteCellWrite(c)
 	}
 	// 3. havoc the write set
 	pre := cur.clone()
+	var hs []string
 	for h := range ws.heaps {
-		cur.heaps[h] = fr.fresh(fr.w.heapSorts[h], h)
+		hs = append(hs, h)
 	}
+	sort.Strings(hs)
+	for _, h := range hs {
+		old := fr.heapCur(cur, h)
+		cur.heaps[h] = fr.fresh(fr.w.heapSorts[h], h)
+		if !ws.oldHeaps[h] && strings.HasPrefix(fr.w.heapSorts[h], "(Array Int ") {
+			// every write in the loop body targets objects allocated in this run: entry-state objects keep their content
+			a := fr.freshName("a")
+			fr.assume(cur, fmt.Sprintf("(forall ((%s Int)) (=> (oldaddr %s) (= (select %s %s) (select %s %s))))", a, a, cur.heaps[h], a, old, a))
+		}
+	}
+	var cs []cellKey
 	for c := range ws.cells {
+		cs = append(cs, c)
+	}
+	sort.Slice(cs, func(i, j int) bool { return fmt.Sprint(cs[i]) < fmt.Sprint(cs[j]) })
+	for _, c := range cs {
 		if old, ok := cur.cells[c]; ok {
-			nv := Val{T: fr.fresh(old.S, "lv"), S: old.S}
+			nv := Val{T: fr.fresh(old.S, "lv"), S: old.S, FreshArr: old.FreshArr}
 			cur.cells[c] = nv
 			if t := cellType(c); t != nil {
 				fr.rangeAssume(cur, nv.T, t)
 			}
+			if nv.FreshArr && nv.S == sSlice {
+				fr.assume(cur, fmt.Sprintf("(or (= (s-arr %s) 0) (> (s-arr %s) AllocBase))", nv.T, nv.T))
+			}
 		}
 	}
-	// the allocation top moves on
 	// 4. assume invariants
 	fr.assumeInvariants(f, head, cur, pre)
 }
@@ -410,7 +461,7 @@ func (fr *FuncRun) val(f *Frame, st *State, v ssa.Value) Val {
 			fr.assumed[key] = true
 			fr.emit(fmt.Sprintf("(assert (> %s 0))", name))
 		}
-		return Val{T: name, S: sInt, Addr: ObjAddr{Ref: name, Elem: x.Type().(*types.Pointer).Elem(), Fresh: true}}
+		return Val{T: name, S: sInt, Addr: ObjAddr{Ref: name, Elem: x.Type().(*types.Pointer).Elem(), NonNil: true}}
 	case *ssa.Builtin:
 		return Val{T: "0", S: sInt}
 	case *ssa.FreeVar:
@@ -442,7 +493,8 @@ func (fr *FuncRun) constVal(c *ssa.Const) Val {
 	t := c.Type()
 	srt := fr.w.SortOf(t)
 	if c.Value == nil {
-		return Val{T: fr.w.Zero(t), S: srt}
+		_, isSlice := t.Underlying().(*types.Slice)
+		return Val{T: fr.w.Zero(t), S: srt, FreshArr: isSlice}
 	}
 	switch c.Value.Kind() {
 	case constant.Bool:
@@ -504,7 +556,7 @@ func (fr *FuncRun) toAddr(f *Frame, st *State, v ssa.Value) Addr {
 
 // nilCheck emits a nil-dereference obligation for address a when needed.
 func (fr *FuncRun) nilCheck(f *Frame, st *State, a Addr, v ssa.Value, pos token.Pos) {
-	if o, ok := a.(ObjAddr); ok && !o.Fresh {
+	if o, ok := a.(ObjAddr); ok && !o.Fresh && !o.NonNil {
 		fr.assertOb(st, "nil", exprText(v), not(eq(o.Ref, "0")), pos, "nil pointer dereference")
 	}
 }
@@ -595,7 +647,7 @@ func (fr *FuncRun) execInstr(f *Frame, st *State, ins ssa.Instruction) {
 		defer func() { fr.curWriteFresh = false }()
 		eh := w.ElemHeap(stype.Elem())
 		fr.heapSet(st, eh, sto(fr.heapCur(st, eh), ref, fmt.Sprintf("((as const (Array Int %s)) %s)", w.SortOf(stype.Elem()), w.Zero(stype.Elem()))))
-		f.regs[x] = Val{T: fr.def(sSlice, fmt.Sprintf("(mk-slice %s 0 %s %s)", ref, ln.T, cp.T)), S: sSlice}
+		f.regs[x] = Val{T: fr.def(sSlice, fmt.Sprintf("(mk-slice %s 0 %s %s)", ref, ln.T, cp.T)), S: sSlice, FreshArr: true}
 	case *ssa.MakeChan:
 		ref := fr.allocRef("chan")
 		fr.curWriteFresh = true
@@ -767,7 +819,7 @@ func (fr *FuncRun) execIndexAddr(f *Frame, st *State, x *ssa.IndexAddr) {
 	case *types.Slice:
 		sv := fr.val(f, st, x.X)
 		fr.assertOb(st, "index", exprText(x.X)+"["+exprText(x.Index)+"]", and("(<= 0 "+iv.T+")", "(< "+iv.T+" (s-len "+sv.T+"))"), x.Pos(), "slice index out of range")
-		a := ElemOf{Arr: fr.def(sInt, "(s-arr "+sv.T+")"), Idx: fr.def(sInt, "(+ (s-off "+sv.T+") "+iv.T+")"), Elem: ct.Elem()}
+		a := ElemOf{Arr: fr.def(sInt, "(s-arr "+sv.T+")"), Idx: fr.def(sInt, "(+ (s-off "+sv.T+") "+iv.T+")"), Elem: ct.Elem(), Fresh: sv.FreshArr}
 		f.regs[x] = Val{T: "0", S: sInt, Addr: a}
 	case *types.Pointer:
 		at := ct.Elem().Underlying().(*types.Array)
@@ -798,7 +850,7 @@ func (fr *FuncRun) execSlice(f *Frame, st *State, x *ssa.Slice) {
 		}
 		fr.assertOb(st, "slice", exprText(x.X)+"["+optText(x.Low)+":"+optText(x.High)+"]", and("(<= 0 "+lo+")", "(<= "+lo+" "+hi+")", "(<= "+hi+" "+mx+")", "(<= "+mx+" (s-cap "+sv.T+"))"), x.Pos(), "slice bounds out of range")
 		r := fmt.Sprintf("(mk-slice (s-arr %s) (+ (s-off %s) %s) (- %s %s) (- %s %s))", sv.T, sv.T, lo, hi, lo, mx, lo)
-		f.regs[x] = Val{T: fr.def(sSlice, r), S: sSlice}
+		f.regs[x] = Val{T: fr.def(sSlice, r), S: sSlice, FreshArr: sv.FreshArr}
 	case *types.Basic: // string
 		sv := fr.val(f, st, x.X)
 		lo, hi := "0", "(strlen "+sv.T+")"
@@ -830,9 +882,11 @@ func (fr *FuncRun) execSlice(f *Frame, st *State, x *ssa.Slice) {
 		// copy semantics (aliasing with the array is not modelled; listed as an abstraction)
 		ref := fr.allocRef("arrslice")
 		eh := w.ElemHeap(at.Elem())
+		fr.curWriteFresh = true
 		fr.heapSet(st, eh, sto(fr.heapCur(st, eh), ref, arr.T))
+		fr.curWriteFresh = false
 		fr.assumed["abstraction: slice of array copies (no aliasing with the array)"] = true
-		f.regs[x] = Val{T: fr.def(sSlice, fmt.Sprintf("(mk-slice %s %s (- %s %s) (- %d %s))", ref, lo, hi, lo, at.Len(), lo)), S: sSlice}
+		f.regs[x] = Val{T: fr.def(sSlice, fmt.Sprintf("(mk-slice %s %s (- %s %s) (- %d %s))", ref, lo, hi, lo, at.Len(), lo)), S: sSlice, FreshArr: true}
 	default:
 		fr.errorf("outside subset: Slice on %s", x.X.Type())
 	}
@@ -966,7 +1020,7 @@ func (fr *FuncRun) convert(st *State, v Val, from, to types.Type) Val {
 		if fb != nil && fb.Info()&types.IsString != 0 {
 			fr.assume(st, "(= "+ln+" (strlen "+v.T+"))")
 		}
-		r = Val{T: fr.def(sSlice, fmt.Sprintf("(mk-slice %s 0 %s %s)", ref, ln, ln)), S: sSlice}
+		r = Val{T: fr.def(sSlice, fmt.Sprintf("(mk-slice %s 0 %s %s)", ref, ln, ln)), S: sSlice, FreshArr: true}
 		if es, ok := to.Underlying().(*types.Slice); ok {
 			w.ElemHeap(es.Elem())
 		}
